@@ -213,6 +213,11 @@ def harmless_override(sm, resources):
     return None
 
 
+def _unq(u):
+    from urllib.parse import unquote
+    return unquote(u) if isinstance(u, str) else u
+
+
 def _judge(ZConfig, ref, got, out):
     if got[0] == "ok":
         return ref, got, [("accepted-although-faulty:" + ref.rule, repr(ref))]
@@ -226,7 +231,7 @@ def _judge(ZConfig, ref, got, out):
     if lineno != ref.lineno:
         out.append(("wrong-line:%s" % ref.rule.split(":")[0],
                     "%s: lineno=%r expected %r (%s: %s)" % (ref.rule, lineno, ref.lineno, type(e).__name__, getattr(e, "message", e))))
-    elif url != ref.url:
+    elif _unq(url) != _unq(ref.url):       # the same URL written with or without percent-escapes
         out.append(("wrong-url:%s" % ref.rule.split(":")[0],
                     "%s: url=%r expected %r (%s)" % (ref.rule, url, ref.url, type(e).__name__)))
     if ref.rule in ("value-conversion", "key-conversion"):
